@@ -288,13 +288,183 @@ def parse_yml():
     return ychoices, tables, opts, yjson
 
 
+# ------------------------------------------------------------------ footprints of the Config methods (which calls can fail to commute)
+CFG_CLASSES = {"Config": "c_main", "CopyAttConfig": "c_copy_att", "AttConfig": "c_att", "PagesConfig": "c_pages", "UOConfig": "c_uo",
+               "EncConfig": "c_enc", "GlobalConfig": "c_global"}
+# helper calls whose effect is not visible as an assignment in QPDFJob_config.cc (read from QPDFJob.cc / global.cc by hand; trusted)
+HELPER_EFFECTS = {
+    "inputs.infile_name": (["inputs.infile_name_", "inputs.files", "inputs.selections"], ["inputs.infile_name_", "inputs.files", "inputs.selections"]),
+    "inputs.new_selection": (["inputs.infile_name_", "inputs.files", "inputs.selections"], ["inputs.files", "inputs.selections"]),
+    "global::Options.default_limits": (["global.parser_max_errors_set", "global.parser_max_container_size_damaged_set", "global.max_stream_filters_set"],
+                                       ["global.default_limits", "global.parser_max_errors", "global.parser_max_container_size_damaged", "global.max_stream_filters"]),
+    "global::Limits.parser_max_errors": ([], ["global.parser_max_errors", "global.parser_max_errors_set"]),
+    "global::Limits.parser_max_nesting": ([], ["global.parser_max_nesting"]),
+    "global::Limits.max_stream_filters": ([], ["global.max_stream_filters", "global.max_stream_filters_set"]),
+}
+METHOD_EFFECTS = {   # by-reference outputs and calls into QPDFJob.cc
+    ("c_main", "showObject"): ([], ["show_trailer", "show_obj", "show_gen"]),
+    ("c_main", "rotate"): ([], ["rotations"]),
+    ("c_main", "jobJsonFile"): (["*"], ["*"]),
+    ("c_global", "parserMaxContainerSize"): ([], ["global.parser_max_container_size"]),
+    ("c_global", "parserMaxContainerSizeDamaged"): ([], ["global.parser_max_container_size_damaged", "global.parser_max_container_size_damaged_set"]),
+    ("c_pages", "range"): (["inputs.selections"], ["inputs.selections"]),
+    ("c_pages", "password"): (["inputs.selections", "inputs.files"], ["inputs.selections", "inputs.files"]),
+}
+
+
+def parse_writer_config():
+    """Writer::Config / Doc::Config setters: name -> (reads, writes[(member, tag)]) with nested setter calls expanded"""
+    hdr = rd("libqpdf/qpdf/QPDFWriter_private.hh")
+    cc = rd("libqpdf/QPDFWriter.cc")
+    m = re.search(r"class Config\n\s*\{(.*?)\n\s*\}; // class Writer::Config", hdr, re.S)
+    if not m:
+        raise Shape("QPDFWriter_private.hh: class Writer::Config not found")
+    body = m.group(1)
+    fields = set(re.findall(r"^\s+(?:std::string|bool|int|qpdf_\w+)\s+(\w+_)(?:\{[^}]*\})?;", body, re.M))
+    if len(fields) < 15:
+        raise Shape("QPDFWriter_private.hh: Writer::Config members not found")
+    defs = {}
+    for mm in re.finditer(r"^\s+(\w+)\(([^)]*)\)(?: const)?\n\s+\{\n(.*?)\n            \}", body, re.S | re.M):
+        defs.setdefault((mm.group(1), bool(mm.group(2).strip())), mm.group(3))
+    for mm in re.finditer(r"^Config::(\w+)\(([^)]*)\)\n\{\n(.*?)\n\}\n", cc, re.S | re.M):
+        defs[(mm.group(1), bool(mm.group(2).strip()))] = mm.group(3)
+    setters = {n for (n, has) in defs if has}
+    raw = {}
+    for (n, has), b in defs.items():
+        writes = []
+        for w in re.finditer(r"\b(\w+_)\s*=\s*([^;]+);", b):
+            if w.group(1) in fields:
+                v = w.group(2).strip()
+                writes.append((w.group(1), "T" if v == "true" else "F" if v == "false" else "?"))
+        wnames = {w for w, _ in writes}
+        reads = [f for f in set(re.findall(r"\b(\w+_)\b", b)) if f in fields and (f not in wnames or re.search(r"[!(|&,]\s*" + f + r"\b|\b" + f + r"\s*[|&)]", b))]
+        calls = [c for c in re.findall(r"\b(\w+)\((?!\))", b) if c in setters and c != n]
+        raw[(n, has)] = (set(reads), writes, calls)
+    out = {}
+
+    def closure(key, seen):
+        r, w, calls = raw[key]
+        r, w = set(r), list(w)
+        for c in calls:
+            if (c, True) in raw and c not in seen:
+                r2, w2 = closure((c, True), seen | {c})
+                r |= r2
+                w += w2
+        return r, w
+    for key in raw:
+        out[key] = closure(key, {key[0]})
+    return out
+
+
+def parse_config_footprints():
+    src = rd("libqpdf/QPDFJob_config.cc")
+    wcfg = parse_writer_config()
+    res = {}
+    for m in re.finditer(r"^QPDFJob::(\w+)::(\w+)\(([^)]*)\)\n\{\n(.*?)\n\}\n", src, re.S | re.M):
+        cls, name, params, body = m.groups()
+        if cls not in CFG_CLASSES or name == cls:
+            continue
+        obj = CFG_CLASSES[cls]
+        arity = 0 if not params.strip() else params.count(",") + 1
+        reads, writes = set(), []
+        occ = [(mm.group(1), body[mm.end():mm.end() + 60]) for mm in re.finditer(r"(?:config->)?o\.m->((?:\w+(?:\.|->))*\w+)", body)]
+        occ += [(mm.group(1) + "." + mm.group(2), body[mm.end():mm.end() + 60]) for mm in re.finditer(r"\b(att|caf)\.(\w+)", body)]
+        occ += [("global::" + mm.group(1) + "." + mm.group(2), body[mm.end() - 1:mm.end() + 60]) for mm in re.finditer(r"global::(\w+)::(\w+)\(", body)]
+        for p, rest in occ:
+            if p in HELPER_EFFECTS:
+                r, w = HELPER_EFFECTS[p]
+                reads |= set(r)
+                writes += [(x, "?") for x in w]
+                continue
+            if p == "infile_name":
+                reads.add("inputs.infile_name_")
+                continue
+            mm = re.match(r"^(w_cfg|d_cfg)\.(\w+)$", p)
+            if mm:
+                has = not rest.startswith("()")
+                if mm.group(1) == "d_cfg":
+                    (writes.append(("d_cfg." + mm.group(2), "T" if rest.startswith("(true)") else "?")) if has else reads.add("d_cfg." + mm.group(2)))
+                    continue
+                key = (mm.group(2), has)
+                if key not in wcfg:
+                    raise Shape("QPDFJob_config.cc: unknown Writer::Config %s %s" % ("setter" if has else "getter", mm.group(2)))
+                r, w = wcfg[key]
+                reads |= {"w_cfg." + x for x in r}
+                writes += [("w_cfg." + x, t) for x, t in w]
+                continue
+            mm = re.match(r"^(.*)\.(push_back|insert|emplace_back|clear)$", p)
+            if mm:
+                writes.append((mm.group(1), "?"))
+                continue
+            mm = re.match(r"^(.*)\.(empty|size|contains|back)$", p)
+            if mm:
+                reads.add(mm.group(1))
+                continue
+            ms = re.match(r"^\s*(\|?=)(?!=)\s*([^;]*);", rest)
+            if ms:
+                v = ms.group(2).strip()
+                writes.append((p, "T" if v == "true" else "F" if v == "false" else "?"))
+                if ms.group(1) == "|=":
+                    reads.add(p)
+                continue
+            reads.add(p)
+        if (obj, name) in METHOD_EFFECTS:
+            r, w = METHOD_EFFECTS[(obj, name)]
+            reads |= set(r)
+            writes += [(x, "?") for x in w]
+        key = (obj, name, arity)
+        if key in res:     # overloads (collate(), collate(x)): union
+            reads |= set(res[key][0])
+            writes += res[key][1]
+        # several assignments to one field in one body (if/else chains): the tag is kept only when they all agree
+        wt = {}
+        for f, t in writes:
+            wt[f] = t if f not in wt or wt[f] == t else "?"
+        res[key] = (sorted(reads), sorted(wt.items()))
+    # calls of one Config method from another of the same class (jsonOutput calls json(parameter); collate() calls collate(""))
+    bodies = {}
+    for m in re.finditer(r"^QPDFJob::(\w+)::(\w+)\(([^)]*)\)\n\{\n(.*?)\n\}\n", src, re.S | re.M):
+        cls, name, params, body = m.groups()
+        if cls in CFG_CLASSES and name != cls:
+            bodies.setdefault((CFG_CLASSES[cls], name), []).append(body)
+    names_by_obj = {}
+    for (obj, name, ar) in res:
+        names_by_obj.setdefault(obj, set()).add(name)
+    for _ in range(3):
+        for (obj, name, ar) in list(res):
+            for body in bodies.get((obj, name), []):
+                for callee in set(re.findall(r"(?<![\w>.:])(\w+)\(", body)):
+                    if callee != name and callee in names_by_obj[obj]:
+                        for (o2, n2, a2), (r2, w2) in list(res.items()):
+                            if o2 == obj and n2 == callee:
+                                r, w = res[(obj, name, ar)]
+                                wt = dict(w)
+                                for f, t in w2:
+                                    wt[f] = t if f not in wt or wt[f] == t else "?"
+                                res[(obj, name, ar)] = (sorted(set(r) | set(r2)), sorted(wt.items()))
+    # methods with the same (obj, name) but different arity are merged: the front ends bind names
+    merged = {}
+    for (obj, name, ar), (r, w) in res.items():
+        k = (obj, name)
+        if k in merged:
+            r = sorted(set(r) | set(merged[k][0]))
+            wt = dict(merged[k][1])
+            for f, t in w:
+                wt[f] = t if f not in wt or wt[f] == t else "?"
+            w = sorted(wt.items())
+        merged[k] = (r, w)
+    if len(merged) < 100:
+        raise Shape("QPDFJob_config.cc: only %d Config methods recognised" % len(merged))
+    return merged
+
+
 def parse_all():
     ac, argv = parse_argv_init()
     jc, jsn = parse_json_init()
     schema, schema_json = parse_schema()
     ychoices, ytables, yopts, yjson = parse_yml()
     return dict(argv_choices=ac, argv=argv, json_choices=jc, json=jsn, schema=schema, schema_json=schema_json,
-                yml_choices=ychoices, yml_tables=ytables, yml_options=yopts, yml_json=yjson)
+                yml_choices=ychoices, yml_tables=ytables, yml_options=yopts, yml_json=yjson, footprints=parse_config_footprints())
 
 
 # ------------------------------------------------------------------ Gallina output
@@ -355,6 +525,12 @@ def emit(d):
     o.append("Definition yml_json : list (list bstr * N * bstr * bstr) := [")
     o.append(";\n".join("  (%s, %d, %s, %s)" % (blist(p), {"flag": 0, "named": 1, "nojson": 2}[how], bs(tbl), bs(flag))
                         for p, how, tbl, flag in d["yml_json"]))
+    o.append("].\n")
+    o.append("(* QPDFJob_config.cc (+ Writer::Config setters): per Config method the members it reads and the members it writes; a write carries\n"
+             "   the constant it stores when every assignment in the body stores that same constant (1 = true, 2 = false, 0 = anything else) *)")
+    o.append("Definition config_footprints : list (bstr * bstr * list bstr * list (bstr * N)) := [")
+    o.append(";\n".join("  (%s, %s, %s, [%s])" % (bs(obj), bs(name), blist(r), "; ".join("(%s, %d)" % (bs(f), {"T": 1, "F": 2, "?": 0}[t]) for f, t in w))
+                        for (obj, name), (r, w) in sorted(d["footprints"].items())))
     o.append("].")
     return "\n".join(o) + "\n"
 
